@@ -10,6 +10,7 @@
 #include "cstl/memory.h"
 
 #include <string.h>
+#include <sys/mman.h>
 
 enum { U_ALLOC = 1, U_RELEASE, U_SWAP, U_RESET, U_GET,
        S_ALLOC = 10, S_SHARE, S_SWAP, S_RESET, S_GET, S_UNIQUE,
@@ -64,6 +65,32 @@ static unsigned reach;
 static char privtok[MAXA];                  /* &privtok[i] is the private pointer of unique allocation i */
 
 #define PROP() (mode_g == 16 ? "C16" : stray_call ? "C20" : "C05")
+
+/* the stray copy normally lives in the extra slot of each object array; a "far" stray lives exactly k * 2^32 bytes away
+ * from the object it was copied from (a self-check that compares addresses in 32 bits cannot tell the two apart) */
+static void *far_sp, *far_up, *far_gp, *far_wp;
+#define SSP ((cstl_shared_ptr_t *)(far_sp ? far_sp : (void *)&sp[NSP]))
+#define SUP ((cstl_unique_ptr_t *)(far_up ? far_up : (void *)&up[NUP]))
+#define SGP ((struct cstl_guarded_ptr *)(far_gp ? far_gp : (void *)&gp[NGP]))
+#define SWP ((cstl_weak_ptr_t *)(far_wp ? far_wp : (void *)&wp[NWP]))
+#ifndef MAP_FIXED_NOREPLACE
+# define MAP_FIXED_NOREPLACE 0x100000
+#endif
+static void *far_place(const void *orig, size_t size, int k)
+{
+    /* map (once) the page(s) that lie k * 2^32 bytes from the original object; NULL if the address range is taken */
+    static uintptr_t mapped[64]; static int nmapped;
+    uintptr_t want = (uintptr_t)orig + (uintptr_t)((int64_t)k * ((int64_t)1 << 32)), pg = want & ~(uintptr_t)4095, end = (want + size + 4095) & ~(uintptr_t)4095;
+    int i;
+    for (; pg < end; pg += 4096) {
+        for (i = 0; i < nmapped; i++) if (mapped[i] == pg) break;
+        if (i < nmapped) continue;
+        if (nmapped >= 64) return NULL;
+        if (mmap((void *)pg, 4096, PROT_READ | PROT_WRITE, MAP_PRIVATE | MAP_ANONYMOUS | MAP_FIXED_NOREPLACE, -1, 0) != (void *)pg) return NULL;
+        mapped[nmapped++] = pg;
+    }
+    return (void *)want;
+}
 #define VIOL(oracle, ...) do { char _k[160]; \
         snprintf(_k, sizeof _k, "%s/%s/%s/%s", PROP(), oracle, q_opname(g_run.opkind), g_cur_ctx); \
         sim_violation(_k, __VA_ARGS__); } while (0)
@@ -606,16 +633,20 @@ static void q_once(const plan_t *p)
         case X_STRAY: {
             /* a[0]: kind 0 guarded,1 unique,2 shared,3 weak; a[1]: object; a[2]: function; a[3]: relocate; a[5]: partner */
             int kind = (int)(o->a[0] % 4), fn = (int)o->a[2], relocate = (int)(o->a[3] & 1), tgt = -1, partner = (int)o->a[5];
+            /* a[3] bits 1-3: where the copy lives: 0 the next slot of the same array, else exactly +2^32, +2^33, -2^32 bytes away */
+            static const int fars[8] = { 0, 0, 0, 0, 0, 1, 2, -1 };
+            int fark = fars[o->a[3] >> 1 & 7];
+            far_sp = far_up = far_gp = far_wp = NULL;
             static char ctxbuf[64]; const char *state = "empty", *fname = "?";
             static const void *cg; static cstl_xtor_func_t *rclr; static void *rpriv;
             (void)cg;
             int i2;
             switch (kind) {
-            case 0: y %= NGP; memcpy(&gp[NGP], &gp[y], sizeof gp[0]); if (relocate) memset(&gp[y], 0x5A, sizeof gp[0]); state = tgp[y] ? "set" : "empty"; break;
-            case 1: y %= NUP; tgt = tup[y]; memcpy(&up[NUP], &up[y], sizeof up[0]); if (relocate) memset(&up[y], 0x5A, sizeof up[0]); state = tgt >= 0 ? "owning" : "empty"; break;
-            case 2: y %= NSP; tgt = tsp[y]; memcpy(&sp[NSP], &sp[y], sizeof sp[0]); if (relocate) memset(&sp[y], 0x5A, sizeof sp[0]);
+            case 0: y %= NGP; if (fark) far_gp = far_place(&gp[y], sizeof gp[0], fark); memcpy(SGP, &gp[y], sizeof gp[0]); if (relocate) memset(&gp[y], 0x5A, sizeof gp[0]); state = tgp[y] ? "set" : "empty"; break;
+            case 1: y %= NUP; tgt = tup[y]; if (fark) far_up = far_place(&up[y], sizeof up[0], fark); memcpy(SUP, &up[y], sizeof up[0]); if (relocate) memset(&up[y], 0x5A, sizeof up[0]); state = tgt >= 0 ? "owning" : "empty"; break;
+            case 2: y %= NSP; tgt = tsp[y]; if (fark) far_sp = far_place(&sp[y], sizeof sp[0], fark); memcpy(SSP, &sp[y], sizeof sp[0]); if (relocate) memset(&sp[y], 0x5A, sizeof sp[0]);
                     state = tgt < 0 ? "empty" : ma[tgt].refs > 1 ? "shared" : "owning"; break;
-            default: y %= NWP; tgt = twp[y]; memcpy(&wp[NWP], &wp[y], sizeof wp[0]); if (relocate) memset(&wp[y], 0x5A, sizeof wp[0]);
+            default: y %= NWP; tgt = twp[y]; if (fark) far_wp = far_place(&wp[y], sizeof wp[0], fark); memcpy(SWP, &wp[y], sizeof wp[0]); if (relocate) memset(&wp[y], 0x5A, sizeof wp[0]);
                     state = tgt < 0 ? "empty" : ma[tgt].owners > 0 ? "weak-live" : "weak-only"; break;
             }
             stray_call = 1; g_cur_prop = "C20";
@@ -624,42 +655,42 @@ static void q_once(const plan_t *p)
             case 0:
                 fn %= 6; i2 = (y + 1) % NGP;
                 switch (fn) {
-                case 0: fname = "guarded_get"; g_cur_ctx = fname; TRY(cg = cstl_guarded_ptr_get(&gp[NGP])); break;
-                case 1: fname = "guarded_get_const"; TRY(cg = cstl_guarded_ptr_get_const(&gp[NGP])); break;
-                case 2: fname = "guarded_copy-src"; TRY(cstl_guarded_ptr_copy(&gp[i2], &gp[NGP])); break;
-                case 3: fname = "guarded_swap-a"; TRY(cstl_guarded_ptr_swap(&gp[NGP], &gp[i2])); break;
-                case 4: fname = "guarded_swap-b"; TRY(cstl_guarded_ptr_swap(&gp[i2], &gp[NGP])); break;
-                default: fname = "guarded_swap-both"; TRY(cstl_guarded_ptr_swap(&gp[NGP], &gp[NGP])); break;
+                case 0: fname = "guarded_get"; g_cur_ctx = fname; TRY(cg = cstl_guarded_ptr_get(SGP)); break;
+                case 1: fname = "guarded_get_const"; TRY(cg = cstl_guarded_ptr_get_const(SGP)); break;
+                case 2: fname = "guarded_copy-src"; TRY(cstl_guarded_ptr_copy(&gp[i2], SGP)); break;
+                case 3: fname = "guarded_swap-a"; TRY(cstl_guarded_ptr_swap(SGP, &gp[i2])); break;
+                case 4: fname = "guarded_swap-b"; TRY(cstl_guarded_ptr_swap(&gp[i2], SGP)); break;
+                default: fname = "guarded_swap-both"; TRY(cstl_guarded_ptr_swap(SGP, SGP)); break;
                 }
                 break;
             case 1:
                 fn %= 8; i2 = (y + 1) % NUP;
                 switch (fn) {
-                case 0: fname = "unique_get"; TRY(cg = cstl_unique_ptr_get(&up[NUP])); break;
-                case 1: fname = "unique_get_const"; TRY(cg = cstl_unique_ptr_get_const(&up[NUP])); break;
-                case 2: fname = "unique_release"; TRY(cg = cstl_unique_ptr_release(&up[NUP], &rclr, &rpriv)); break;
-                case 3: fname = "unique_swap-a"; TRY(cstl_unique_ptr_swap(&up[NUP], &up[i2])); break;
-                case 4: fname = "unique_swap-b"; TRY(cstl_unique_ptr_swap(&up[i2], &up[NUP])); break;
-                case 5: fname = "unique_reset"; TRY(cstl_unique_ptr_reset(&up[NUP])); break;
-                case 6: fname = "unique_swap-both"; TRY(cstl_unique_ptr_swap(&up[NUP], &up[NUP])); break;
-                default: fname = "unique_alloc"; TRY(cstl_unique_ptr_alloc(&up[NUP], 8, NULL, NULL)); break;
+                case 0: fname = "unique_get"; TRY(cg = cstl_unique_ptr_get(SUP)); break;
+                case 1: fname = "unique_get_const"; TRY(cg = cstl_unique_ptr_get_const(SUP)); break;
+                case 2: fname = "unique_release"; TRY(cg = cstl_unique_ptr_release(SUP, &rclr, &rpriv)); break;
+                case 3: fname = "unique_swap-a"; TRY(cstl_unique_ptr_swap(SUP, &up[i2])); break;
+                case 4: fname = "unique_swap-b"; TRY(cstl_unique_ptr_swap(&up[i2], SUP)); break;
+                case 5: fname = "unique_reset"; TRY(cstl_unique_ptr_reset(SUP)); break;
+                case 6: fname = "unique_swap-both"; TRY(cstl_unique_ptr_swap(SUP, SUP)); break;
+                default: fname = "unique_alloc"; TRY(cstl_unique_ptr_alloc(SUP, 8, NULL, NULL)); break;
                 }
                 break;
             case 2:
                 fn %= 12; i2 = partner % NSP; if (i2 == y) i2 = (y + 1) % NSP;
                 switch (fn) {
-                case 0: fname = "shared_get"; TRY(cg = cstl_shared_ptr_get(&sp[NSP])); break;
-                case 1: fname = "shared_get_const"; TRY(cg = cstl_shared_ptr_get_const(&sp[NSP])); break;
-                case 2: fname = "shared_unique"; TRY(cg = cstl_shared_ptr_unique(&sp[NSP]) ? &sp[0] : NULL); break;
-                case 3: fname = "shared_share-src"; TRY(cstl_shared_ptr_share(&sp[NSP], &sp[i2])); break;
-                case 4: fname = "shared_share-dst"; TRY(cstl_shared_ptr_share(&sp[i2], &sp[NSP])); break;
-                case 5: fname = "shared_swap-a"; TRY(cstl_shared_ptr_swap(&sp[NSP], &sp[i2])); break;
-                case 6: fname = "shared_swap-b"; TRY(cstl_shared_ptr_swap(&sp[i2], &sp[NSP])); break;
-                case 7: fname = "shared_reset"; TRY(cstl_shared_ptr_reset(&sp[NSP])); break;
-                case 8: fname = "shared_alloc"; TRY(cstl_shared_ptr_alloc(&sp[NSP], 8, NULL)); break;
-                case 9: fname = "weak_from-src"; i2 = partner % NWP; TRY(cstl_weak_ptr_from(&wp[i2], &sp[NSP])); break;
-                case 11: fname = "shared_swap-both"; TRY(cstl_shared_ptr_swap(&sp[NSP], &sp[NSP])); break;
-                default: fname = "weak_lock-dst"; i2 = partner % NWP; TRY(cstl_weak_ptr_lock(&wp[i2], &sp[NSP])); break;
+                case 0: fname = "shared_get"; TRY(cg = cstl_shared_ptr_get(SSP)); break;
+                case 1: fname = "shared_get_const"; TRY(cg = cstl_shared_ptr_get_const(SSP)); break;
+                case 2: fname = "shared_unique"; TRY(cg = cstl_shared_ptr_unique(SSP) ? &sp[0] : NULL); break;
+                case 3: fname = "shared_share-src"; TRY(cstl_shared_ptr_share(SSP, &sp[i2])); break;
+                case 4: fname = "shared_share-dst"; TRY(cstl_shared_ptr_share(&sp[i2], SSP)); break;
+                case 5: fname = "shared_swap-a"; TRY(cstl_shared_ptr_swap(SSP, &sp[i2])); break;
+                case 6: fname = "shared_swap-b"; TRY(cstl_shared_ptr_swap(&sp[i2], SSP)); break;
+                case 7: fname = "shared_reset"; TRY(cstl_shared_ptr_reset(SSP)); break;
+                case 8: fname = "shared_alloc"; TRY(cstl_shared_ptr_alloc(SSP, 8, NULL)); break;
+                case 9: fname = "weak_from-src"; i2 = partner % NWP; TRY(cstl_weak_ptr_from(&wp[i2], SSP)); break;
+                case 11: fname = "shared_swap-both"; TRY(cstl_shared_ptr_swap(SSP, SSP)); break;
+                default: fname = "weak_lock-dst"; i2 = partner % NWP; TRY(cstl_weak_ptr_lock(&wp[i2], SSP)); break;
                 }
                 /* share-src resets its (honest) destination before it touches the stray source */
                 if (fn == 3 && tsp[i2] == tgt) tgt = -1;
@@ -667,20 +698,22 @@ static void q_once(const plan_t *p)
             default:
                 fn %= 7; i2 = partner % NSP;
                 switch (fn) {
-                case 0: fname = "weak_from-dst"; TRY(cstl_weak_ptr_from(&wp[NWP], &sp[i2])); break;
-                case 1: fname = "weak_lock-src"; TRY(cstl_weak_ptr_lock(&wp[NWP], &sp[i2]));
+                case 0: fname = "weak_from-dst"; TRY(cstl_weak_ptr_from(SWP, &sp[i2])); break;
+                case 1: fname = "weak_lock-src"; TRY(cstl_weak_ptr_lock(SWP, &sp[i2]));
                         if (tsp[i2] == tgt) tgt = -1;       /* the honest destination is reset first; it may have been the last owner */
                         break;
-                case 2: fname = "weak_swap-a"; TRY(cstl_weak_ptr_swap(&wp[NWP], &wp[(y + 1) % NWP])); break;
-                case 3: fname = "weak_swap-b"; TRY(cstl_weak_ptr_swap(&wp[(y + 1) % NWP], &wp[NWP])); break;
-                case 4: fname = "weak_reset"; TRY(cstl_weak_ptr_reset(&wp[NWP])); break;
+                case 2: fname = "weak_swap-a"; TRY(cstl_weak_ptr_swap(SWP, &wp[(y + 1) % NWP])); break;
+                case 3: fname = "weak_swap-b"; TRY(cstl_weak_ptr_swap(&wp[(y + 1) % NWP], SWP)); break;
+                case 4: fname = "weak_reset"; TRY(cstl_weak_ptr_reset(SWP)); break;
                 /* a shared pointer object is the stray here: weak_from(ok weak, stray shared), weak_lock(ok weak, stray shared) are case 2's business */
-                case 5: fname = "weak_swap-both"; TRY(cstl_weak_ptr_swap(&wp[NWP], &wp[NWP])); break;
-                default: fname = "weak_reset-again"; TRY(cstl_weak_ptr_reset(&wp[NWP])); break;
+                case 5: fname = "weak_swap-both"; TRY(cstl_weak_ptr_swap(SWP, SWP)); break;
+                default: fname = "weak_reset-again"; TRY(cstl_weak_ptr_reset(SWP)); break;
                 }
                 break;
             }
-            snprintf(ctxbuf, sizeof ctxbuf, "%s-%s-%s", fname, state, relocate ? "relocated" : "duplicate");
+            snprintf(ctxbuf, sizeof ctxbuf, "%s-%s-%s%s", fname, state, relocate ? "relocated" : "duplicate", (far_sp || far_up || far_gp || far_wp) ? "-2^32-away" : "");
+            if (far_sp || far_up || far_gp || far_wp) PROBE("c20_stray_exactly_2^32_bytes_away");
+            far_sp = far_up = far_gp = far_wp = NULL;
             g_cur_ctx = ctxbuf;
             PROBE("c20_stray_call");
             { char pn[96]; snprintf(pn, sizeof pn, "c20:%s", g_cur_ctx); probe_dyn(pn); }
@@ -744,7 +777,7 @@ static void q_gen(prng_t *r, int mode, plan_t *p)
     if (mode == 5 && prng_chance(r, 1, 6)) { op_t *o = plan_add(p, X_SELFREF); o->a[2] = prng_below(r, 16); o->a[3] = prng_below(r, 4); }
     if (mode == 20) {
         op_t *o = plan_add(p, X_STRAY);
-        o->a[0] = prng_below(r, 4); o->a[1] = prng_below(r, 12); o->a[2] = prng_below(r, 63); o->a[3] = prng_below(r, 2); o->a[5] = prng_below(r, 12);
+        o->a[0] = prng_below(r, 4); o->a[1] = prng_below(r, 12); o->a[2] = prng_below(r, 63); o->a[3] = prng_below(r, 16); o->a[5] = prng_below(r, 12);
     }
 }
 
